@@ -6,5 +6,6 @@ jobs=${1:-3}
 ls refactors/*.diff | xargs -P "$jobs" -I{} sh -c 'p={}; b=$(basename $p .diff); tools/try_seed.sh $p quick C01 C02 C03 C04 C05 C06 C07 C08 C09 C10 C11 C12 C13 C14 C15 C16 C17 C18 C19 C20 > /tmp/refmat_$b.log 2>&1'
 : > refactors/results.txt
 for p in refactors/*.diff; do b=$(basename $p .diff); echo "== $b (repo $(git -C /repo rev-parse --short HEAD), verif $(git rev-parse --short HEAD))" >> refactors/results.txt; cut -c1-200 /tmp/refmat_$b.log >> refactors/results.txt; rm -f /tmp/refmat_$b.log; done
+if grep -q "does not apply" refactors/results.txt; then echo "a patch does not apply to the current /repo:"; grep -B1 "does not apply" refactors/results.txt | grep "=="; fi
 if grep -q "rc=[12]" refactors/results.txt; then echo "ALARM on a behaviour-preserving rewrite:"; grep -B0 "rc=[12]" refactors/results.txt; exit 1; fi
 echo "no alarm: $(grep -c 'rc=0' refactors/results.txt) check runs"
